@@ -117,6 +117,15 @@ claim("C13",
       "must-pass-through path rules on the clang CFG",
       "DESIGN.md section 3, C13")
 
+claim("C09",
+      "Shape of the collector in both build configurations: registers flushed before marking, all three root classes "
+      "requested and each marked on every path, mark strictly before sweep, mark/sweep entered only through the guarded "
+      "driver. Each is a necessary condition of 'collection never changes what a program computes' (dropping any of them "
+      "frees live objects on some schedule); that conservative marking is complete for every heap shape is not decided.",
+      "Trusted: clang 14 CFG; the setjmp register-flush idiom; OSMEM_* bit values read from the case labels.",
+      "must-pass-through rules on the clang CFG, constant evaluation of the root-class request, who-may-call",
+      "DESIGN.md section 3, C09")
+
 PENDING_REASON = "check designed in DESIGN.md but not yet built in this tree; not claimed until it runs"
 
 
